@@ -163,8 +163,10 @@ func (r *rig) refusalSig(generic string, o outcome, overflowBefore int64, st obs
 func runThresh(t ev.TB, part string, c *Thresh) (classes []string, concluded bool) {
 	desc := c.json
 	r, err := newRig(t, part, c.Setup)
-	if err != nil {
-		t.Fatalf("rig: %v", err)
+	if err != nil { // no ports / listener did not come up: infrastructure
+		markInconclusive(part)
+		t.Logf("rig: %v", err)
+		return
 	}
 	defer r.close()
 	inconclusive := func() ([]string, bool) { markInconclusive(part); return classes, false }
